@@ -354,7 +354,10 @@ class Engine(ExprMixin, CallMixin, StmtMixin):
 
     def solve(self, ob, c, timeout_ms=20000):
         s = z3.Solver()
-        s.set("timeout", timeout_ms)
+        # the budget is a deterministic resource limit (about 20 s / 120 s of work when measured here), so a
+        # verdict does not flip when all cores are busy; the wall-clock timeout is only a backstop
+        s.set("rlimit", int(timeout_ms * 1250))
+        s.set("timeout", timeout_ms * 6)
         t0 = time.time()
         gs = str(ob.goal)
         if any(f.eq(ob.goal) or (z3.is_quantifier(f) and z3.is_quantifier(ob.goal) and self._alpha_eq(f, ob.goal))
